@@ -684,7 +684,7 @@ impl Model {
             integ
         );
         // another writer stored the pool's next value by address while this one was open
-        if s.aged_hours != 0 && s.streamed() {
+        if (s.aged_hours != 0 || s.crowd > 0) && s.streamed() {
             let o = (Algo::Sha256, blob::hexs(&blob::digest_raw(Algo::Sha256, &other)));
             self.adopt_content(ctx, &o);
         }
